@@ -108,8 +108,7 @@ def fits (c : Ctx) (d : Dec) : Bool :=
     let nd : Int := ndigits d.coeff
     (c.prec == 0 || nd ≤ (c.prec : Int)) &&
     (d.exp + nd - 1 ≤ c.emax) &&
-    (c.prec == 0 || d.coeff == 0 || d.exp ≥ c.emin - (c.prec : Int) + 1) &&
-    (d.exp ≤ MaxExponent && d.exp ≥ MinExponent)
+    (c.prec == 0 || d.coeff == 0 || d.exp ≥ c.emin - (c.prec : Int) + 1)
   | _ => true
 
 end Apd.Oracle
